@@ -114,9 +114,13 @@ Proof. vm_compute. reflexivity. Qed.
 Print Assumptions C18_setter_targets_exist.
 
 (* Getter and setter of a property name the same C member: every FIELD a setter assigns is one of the fields its getter
-   reads (or, for write-only properties whose getter reads no field, the field "_" ++ property). *)
-Theorem C18_setter_matches_getter : setter_getter_mismatch py_classes py_props py_getter_reads = [].
-Proof. vm_compute. reflexivity. Qed.
+   reads (or, for write-only properties whose getter reads no field, the field "_" ++ property); an accessor that searches
+   a C array never leaves its `for` loop unconditionally (it would only ever inspect element 0), and a getter and a
+   setter that both search test the same condition (they locate the same element). *)
+Theorem C18_setter_matches_getter :
+  setter_getter_mismatch py_classes py_props py_getter_reads = [] /\
+  unguarded_loop_exits py_loop_exits = [] /\ search_mismatch py_loop_search = [].
+Proof. vm_compute. repeat split; reflexivity. Qed.
 Print Assumptions C18_setter_matches_getter.
 
 (* Every clibrebound.<symbol> the (imported) python modules reference is declared DLLEXPORT in rebound.h (or is a listed
